@@ -144,6 +144,7 @@ inductive Site
   | callArgCount      -- eval/mod.rs prepare_bindings: positional call with the wrong number of arguments
   | callBindTarget    -- eval/mod.rs prepare_bindings: OUT / IN_OUT argument that is not an l-value
   | callUndefined     -- eval/expr/eval.rs Expr::Call: no function / instance of that name
+  | fbFlow            -- eval/mod.rs call_function_block: body ended with Exit / LoopContinue
   | budget            -- eval/stmt.rs check_execution_budget (model: fuel exhausted)
   | latched           -- runtime/cycle.rs execute_cycle: resource already faulted
   deriving DecidableEq, Repr, Inhabited
